@@ -333,5 +333,25 @@ NoSNaNFloats(m) == \A i \in 1..Len(m.fields) :
                       \A j \in 1..Len(f.items) : CASE k = "float" -> ~SNaN32(f.items[j], 1) [] k = "message" -> NoSNaNFloats(f.items[j]) [] OTHER -> TRUE
 PyNativeOK(m) == PyOK(m) /\ NoSNaNFloats(Norm(m))
 
+----------------------------------------------------------------------------
+(* Known findings about the OTHER implementations (known_findings.json), as predicates on the Message: while a   *)
+(* finding is open (its id in the Deviations constant of WireVec / WireTrace) the one leg it concerns is left   *)
+(* free for the Messages it matches; everything else is judged normally.                                         *)
+(*  F38  micro reader: UMFindData() fails on a zero-length raw item that is the last item of its field.          *)
+(*  F39  message.py: FlattenedSize() counts the characters of a field name, Flatten() writes its UTF-8 bytes, and *)
+(*       the length prefix of a sub-Message comes from FlattenedSize(): wrong bytes when a field name INSIDE A    *)
+(*       SUB-MESSAGE is not pure ASCII.                                                                           *)
+RECURSIVE F38(_)
+F38(m) == \E i \in 1..Len(m.fields) :
+             LET f == m.fields[i] k == Kind(f.type) IN
+             \/ k = "raw" /\ Len(f.items[Len(f.items)]) = 0
+             \/ k = "message" /\ \E j \in 1..Len(f.items) : F38(f.items[j])
+RECURSIVE NonAsciiName(_)
+NonAsciiName(m) == \E i \in 1..Len(m.fields) :
+                      LET f == m.fields[i] IN
+                      Flattenable(f) /\ (\/ \E q \in 1..Len(f.name) : f.name[q] >= 128
+                                         \/ Kind(f.type) = "message" /\ \E j \in 1..Len(f.items) : NonAsciiName(f.items[j]))
+F39(m) == \E i \in 1..Len(m.fields) : Kind(m.fields[i].type) = "message" /\ \E j \in 1..Len(m.fields[i].items) : NonAsciiName(m.fields[i].items[j])
+
 Common(impl, m) == CASE impl = "python" -> PyOK(m) [] impl = "pynative" -> PyNativeOK(m) [] OTHER -> TRUE
 =============================================================================
